@@ -89,6 +89,7 @@ void harness(void) {
   /* B receives */
   unsigned char buf[VS_CAP];
   int got = 0;
+  _Bool cut = 0;
   for (int i = 0; i < 2; i++) {
     int bl = ND_RANGE(1, VS_CAP);
     PSocketAddress *from = NULL;
@@ -97,7 +98,9 @@ void harness(void) {
     p_socket_set_timeout(B, 0);
     vs_begin_call(FAULTS, VS_M_EINTR | VS_M_EAGAIN);
     vs.nb_call = !blk;
-    for (int k = 0; k < VS_CAP; k++) buf[k] = 0;
+    unsigned char fillb = ND_UCHAR();          /* what the caller's buffer held before */
+    int jb = ND_RANGE(0, VS_CAP - 1);
+    for (int k = 0; k < VS_CAP; k++) buf[k] = fillb;
     if (use_from) r = p_socket_receive_from(B, &from, (pchar *) buf, (psize) bl, &err);
     else r = p_socket_receive(B, (pchar *) buf, (psize) bl, &err);
     if (r >= 0) {
@@ -106,7 +109,9 @@ void harness(void) {
       int n = first ? n1 : n2;
       VASSERT(got < (int) s1 + (int) s2, "no datagram out of thin air");
       VASSERT(err == NULL, "no error on success");
-      VASSERT(r == (n < bl ? n : bl), "exactly one datagram, cut to the buffer length");
+      VASSERT(r == (n < bl ? n : bl), "exactly one datagram, cut to the buffer length (returned count = bytes stored, never the longer datagram length)");
+      if (jb >= r) VASSERT(buf[jb] == fillb, "the caller's buffer is untouched beyond the returned count");
+      if (n > bl) cut = 1;
       VASSERT(first ? same_bytes(buf, d1, (int) r) : same_bytes(buf, d2, (int) r), "datagram payload byte-exact");
       if (use_from) check_from(from, first ? &sa : &sc, fam);
       got++;
@@ -122,5 +127,6 @@ void harness(void) {
   VASSERT(vm_live == 0 && vs_open_count() == 0 && vs.bad_close == 0, "everything released");
   VWITNESS("end");
   if (got == 2 && n1 > 1) VWITNESS("two datagrams received, in order");
+  if (got == 2 && cut && n1 > 2) VWITNESS("a datagram longer than the receive buffer was cut, the next one arrived intact");
   if (got == 2 && vs.nfaults >= FAULTS) VWITNESS("two datagrams received under faults");
 }
